@@ -2,10 +2,13 @@ package rules
 
 import (
 	"fmt"
+	"go/ast"
 	"go/token"
 	"go/types"
 	"sort"
 	"strings"
+
+	"golang.org/x/tools/go/cfg"
 
 	"golang.org/x/tools/go/callgraph"
 	"golang.org/x/tools/go/ssa"
@@ -583,3 +586,161 @@ func (c *lockCtx) probeBeforeInsert(f *ssa.Function, b *ssa.BasicBlock, i int, u
 }
 
 var _ = fmt.Sprintf
+
+// LockPairing (R-LOCK/L6): every acquisition of a mutex is released on every
+// way out of the function. The repository's idiom is `mu.Lock(); defer
+// mu.Unlock()`. Where a function unlocks by hand, go/cfg is searched for a
+// path from the Lock to the function's exit that passes no Unlock of the same
+// mutex: a return on a failure path that forgets the unlock leaves the mutex
+// locked for ever, and every later call that needs it — every later decode on
+// the same codec — blocks.
+func LockPairing(r *core.Run, rels []string) {
+	r.Rule("R-LOCK/L6", "in the packages in scope every call of Lock / RLock on a sync.Mutex or sync.RWMutex is followed directly by a deferred Unlock / RUnlock of the same mutex, or every go/cfg path from the call to an exit of the function passes such an unlock: no return leaves the mutex held")
+	n := 0
+	for _, rel := range rels {
+		pk := r.P.Pkg(rel)
+		if pk == nil {
+			r.Fatal("anchor: package %s not found", rel)
+			continue
+		}
+		info := pk.TypesInfo
+		core.AllFuncDecls(pk, func(fd *ast.FuncDecl) {
+			if fd.Body == nil {
+				return
+			}
+			lockKind := func(c *ast.CallExpr) (mutex string, unlock string, ok bool) {
+				switch core.CalleeName(info, c) {
+				case "(*sync.Mutex).Lock", "(*sync.RWMutex).Lock":
+					unlock = "Unlock"
+				case "(*sync.RWMutex).RLock":
+					unlock = "RUnlock"
+				default:
+					return "", "", false
+				}
+				sel, isSel := c.Fun.(*ast.SelectorExpr)
+				if !isSel {
+					return "", "", false
+				}
+				return core.NormExpr(info, sel.X), unlock, true
+			}
+			isUnlock := func(n ast.Node, mutex, unlock string) bool {
+				found := false
+				ast.Inspect(n, func(m ast.Node) bool {
+					if _, isLit := m.(*ast.FuncLit); isLit {
+						return false
+					}
+					c, ok := m.(*ast.CallExpr)
+					if !ok {
+						return true
+					}
+					sel, isSel := c.Fun.(*ast.SelectorExpr)
+					if isSel && sel.Sel.Name == unlock && core.NormExpr(info, sel.X) == mutex && strings.HasPrefix(core.CalleeName(info, c), "(*sync.") {
+						found = true
+					}
+					return true
+				})
+				return found
+			}
+			var locks []*ast.CallExpr
+			ast.Inspect(fd.Body, func(m ast.Node) bool {
+				if _, isLit := m.(*ast.FuncLit); isLit {
+					return false
+				}
+				if es, ok := m.(*ast.ExprStmt); ok {
+					if c, ok := es.X.(*ast.CallExpr); ok {
+						if _, _, isLock := lockKind(c); isLock {
+							locks = append(locks, c)
+						}
+					}
+				}
+				return true
+			})
+			if len(locks) == 0 {
+				return
+			}
+			g := cfg.New(fd.Body, func(*ast.CallExpr) bool { return true })
+			for _, lc := range locks {
+				mutex, unlock, _ := lockKind(lc)
+				n++
+				o := r.Add("R-LOCK/L6", rel+"."+core.FuncName(fd)+" | "+mutex+"."+strings.TrimSuffix(unlock, "Unlock")+"Lock released on every exit", lc.Pos(), "release of "+mutex)
+				// locate the lock in the cfg
+				var start *cfg.Block
+				startIdx := -1
+				for _, b := range g.Blocks {
+					for i, nd := range b.Nodes {
+						if nd.Pos() <= lc.Pos() && lc.End() <= nd.End() {
+							if _, isDefer := nd.(*ast.DeferStmt); !isDefer {
+								start, startIdx = b, i
+							}
+						}
+					}
+				}
+				if start == nil {
+					o.Fail("the Lock call was not found in the control-flow graph")
+					continue
+				}
+				// deferred unlock registered right after
+				deferred := false
+				if startIdx+1 < len(start.Nodes) {
+					if ds, ok := start.Nodes[startIdx+1].(*ast.DeferStmt); ok && isUnlock(ds.Call, mutex, unlock) {
+						deferred = true
+					}
+				}
+				if deferred {
+					o.Auto("released by the defer that follows the Lock")
+					continue
+				}
+				// path search: reach an exit without passing an unlock (plain or deferred)
+				var leak ast.Node
+				seen := map[*cfg.Block]bool{}
+				var walk func(b *cfg.Block, from int)
+				walk = func(b *cfg.Block, from int) {
+					if leak != nil {
+						return
+					}
+					for i := from; i < len(b.Nodes); i++ {
+						nd := b.Nodes[i]
+						if isUnlock(nd, mutex, unlock) {
+							return
+						}
+						if ret, ok := nd.(*ast.ReturnStmt); ok {
+							leak = ret
+							return
+						}
+					}
+					if len(b.Succs) == 0 {
+						// the end of the function (or a panic) without an unlock
+						if len(b.Nodes) > 0 {
+							last := b.Nodes[len(b.Nodes)-1]
+							if es, ok := last.(*ast.ExprStmt); ok {
+								if c, ok := es.X.(*ast.CallExpr); ok {
+									if id, ok := c.Fun.(*ast.Ident); ok && id.Name == "panic" {
+										return
+									}
+								}
+							}
+							leak = last
+						} else {
+							leak = fd.Body
+						}
+						return
+					}
+					for _, s := range b.Succs {
+						if !seen[s] {
+							seen[s] = true
+							walk(s, 0)
+						}
+					}
+				}
+				walk(start, startIdx+1)
+				if leak != nil {
+					o.Pos = r.P.Rel(leak.Pos())
+					o.Fail("a path from the %s of %s reaches this exit without releasing it: the mutex stays locked and every later call that needs it blocks for ever", strings.TrimSuffix(unlock, "Unlock")+"Lock", mutex)
+				} else {
+					o.Auto("every path to an exit passes %s", unlock)
+				}
+			}
+		})
+	}
+	r.Analysed["lock_acquisitions"] = n
+}
